@@ -11,5 +11,6 @@ CONSTANTS NB = 2
  BugBatchAny = FALSE
  BugAddAfterInsert = TRUE
  BugStaleSubIndex = FALSE
+ BugBatchAbort = FALSE
 INVARIANTS PoolClean
 CHECK_DEADLOCK FALSE
